@@ -644,7 +644,8 @@ PROPS["C17"] = {
             "change; initial state re-encoded with other whitespace / member order, with padding, with non-zero trailing bits, with a line break; namespaces related by prefix (longer, "
             "shorter, with extra colon, upper case); short form; extra middle segments; suffix of another request; missing parts; tampered and re-encoded initial state; initial state "
             "without type / with an extra member / that is an update request. ProcessOperation on create, respelled, truncated, hash-mismatching and non-create requests, followed by "
-            "ResolveDocument of the DID it returned. VDR.Create (twice) and VDR.Read on did-go documents with several keys. Compared: accept/refuse and the whole resolution result.",
+            "ResolveDocument of the DID it returned. VDR.Create (twice) and VDR.Read on did-go documents with several keys. Every DID of the resolve stream is also given to Parser.ParseDID "
+            "directly (the handler looks at the namespace first). Compared: accept/refuse, the whole resolution result, and short / long / error of ParseDID.",
     "technique": "Lean 4 theorems on the resolution model (namespace gate, canonical initial state, shape of resolvable DIDs, self-certification) + go/ast obligations + differential correspondence",
     "level_text": "Proved in Lean: a DID resolves only if it begins with the handler's namespace and a colon (so did:foobar never resolves on did:foo); short forms are refused; an initial "
                   "state is accepted only if it is the exact unpadded base64url encoding of the canonical JSON of the request it decodes to; every resolvable DID ends in suffix:initial-state "
@@ -695,7 +696,8 @@ PROPS["C18"] = {
             "and order of purposes, 0-3 services with every endpoint shape and extra members, also-known-as; states with and without commitments, anchor origin, times, version id, "
             "deactivated flag; published and unpublished operation lists with arbitrary (time, number) pairs incl. disagreeing ones, exact duplicates and repeated canonical references; "
             "info with and without canonical / equivalent ids, occasionally without id / published; all 16 option combinations and 0-3 method contexts; every fourth state also goes through the generic document transformer (doctransformer). The transformation info docutil builds for published (canonical reference, 0-3 equivalent references) and unpublished (label, domain, long form) states. Compared: the whole result "
-            "(operations with equal (time, number) as multisets). Non-trivial = transformed; distinct = distinct (state, info, options).",
+            "(operation lists as multisets: the order among equal (time, number) is open), and - on the implementation's own lists - that they are in (time, number) order, the number of an "
+            "unpublished operation being read from the request the harness plants. Non-trivial = transformed; distinct = distinct (state, info, options).",
     "technique": "Lean 4 theorems (sorted permutation, de-duplication, per-key fields, relationships, contexts, metadata table) + go/ast table obligations + differential correspondence",
     "level_text": "Proved in Lean: operations are listed as a permutation of the input sorted lexicographically by (transaction time, transaction number); the published list has no canonical "
                   "reference twice, loses none, and is a sorted sublist; every internal key yields exactly one verification method with id DID#id (or #id under @base), its type and "
